@@ -94,6 +94,12 @@ fn parse_tree(doc: &str) -> Result<Vec<Elem>, String> {
     Ok(out)
 }
 
+/// R5 for other checks: Ok(name of the root element) iff the document is well-formed
+pub fn well_formed(doc: &str) -> Result<String, String> {
+    let t = parse_tree(doc)?;
+    t.iter().find(|e| e.depth == 0).map(|e| e.name.clone()).ok_or_else(|| "no root".to_owned())
+}
+
 struct Mutant {
     kind: &'static str,
     label: String,
@@ -363,7 +369,7 @@ pub fn run(ctx: &Ctx) -> (Acc, Report) {
         level: "exploration",
         rule: format!("{n_types} types ({XML_ROOT_TYPES} root, {XML_CONTENT_TYPES} content) with both an encoder and a decoder: base value and every single-member deviation to nesting depth 6 over the XML text alphabet (empty, edge blanks, markup characters, ]]>, non-ASCII, tab/newline, CR, U+0085, U+FFFD), integers 0/-1/max, booleans, timestamps, first/last/unknown enum constants, 1- and 2-item lists (thorough: pairs) -> encode -> well-formed (xmlparser) and decode == value; on the encoded base and a populated value of each type every instance of: truncation at every offset, rename / duplicate / delete of each element, swap of adjacent siblings, unknown child, second root, text outside the root, CDATA / partial CDATA / comment / PI / decimal and hex character reference rewrites of each text node, 'abc' appended to each text node. Differential oracles. Distinct by id."),
         exhaustive: true,
-        extra: json!({"types": n_types, "encode_only_root_types_not_covered_here(decoded by the SDK in C03)": XML_ENCODE_ONLY_ROOTS}),
+        extra: json!({"types": n_types, "encode_only_root_types_not_covered_here(decoded by the SDK in C03)": XML_ENCODE_ONLY_ROOTS, "content_types_with_attribute_members(no stand-alone encoding; covered through Grant, TargetGrant and the roots containing them)": XML_ATTRIBUTE_BEARING_CONTENT_TYPES}),
         assumptions: vec!["decoding by an independent S3 client is C02/C03's half (aws-sdk-s3); here the independent party is the xmlparser tokenizer".into(), "member order inside a structure is not part of the statement: reorderings are recorded only".into()],
     };
     (acc, rep)
